@@ -1,0 +1,17 @@
+//go:build verif
+
+package influxql
+
+// Thin exports for the C12 verification harness (/verif). No behaviour.
+
+// VerifKeywordsC12 returns a copy of the scanner's keyword table (lower-case word -> token).
+func VerifKeywordsC12() map[string]int {
+	m := make(map[string]int, len(keywords))
+	for k, v := range keywords {
+		m[k] = v
+	}
+	return m
+}
+
+// VerifIsOperatorC12 reports whether ParseExpr treats the token as a binary operator.
+func VerifIsOperatorC12(t Token) bool { return t.isOperator() }
